@@ -541,6 +541,8 @@ def tasks(tier):
         cfgs = E.configs(name, tier)
         if tier == "quick":
             cfgs = dict(list(cfgs.items())[:1])
+        if name == "Sudoku":   # also the database generator built on a caller-owned int32 numpy array (constructors must not modify their arguments)
+            cfgs = {**cfgs, "db": E.ALL()["Sudoku"]["db"]}
         for cfg in cfgs:
             out[f"{name}@{cfg}"] = (run_env, {"name": name, "cfg": cfg})
     return out
